@@ -1214,6 +1214,10 @@ class Interp:
                 return self.ev(e.args[0])
             if meth == "copy" and not e.args:
                 return recv
+            if meth in ("ravel", "flatten") and not e.args and isinstance(recv, (Arr, View, OpqArr)) and _ndim(recv) == 2:
+                return Ravel(self, recv, e)
+            if meth in ("ravel", "flatten") and not e.args and isinstance(recv, (Arr, View, OpqArr)) and _ndim(recv) == 1:
+                return recv
             if meth == "dot" and len(e.args) == 1:
                 return self.matmul(recv, self.ev(e.args[0]), e)
             if meth == "reshape":
@@ -1716,10 +1720,11 @@ class Arange(OpqArr):
         OpqArr.__init__(self, "arange", 1)
         self.n = n
         self.length = tov(n)
+        self.start = V.const(0)
 
     def sub(self, it, spec, node):
         if len(spec) == 1 and spec[0][0] == "fix":
-            return tov(spec[0][1])
+            return self.start + tov(spec[0][1])
         return View(self, list(spec))
 
 
@@ -1759,7 +1764,11 @@ def _np_arange(it, args, kw, e):
         return Tensor((args[0],), [V.const(i) for i in range(args[0])])
     if len(args) == 1:
         return Arange(args[0])
-    it.err(e, "arange with start/step")
+    if len(args) == 2:
+        a = Arange(tov(args[1]) - tov(args[0]))
+        a.start = tov(args[0])
+        return a
+    it.err(e, "arange with step")
 
 
 def _np_repeat(it, args, kw, e):
@@ -1772,6 +1781,24 @@ def _np_tile(it, args, kw, e):
     if len(args) != 2:
         it.err(e, "tile arity")
     return Tile(it, args[0], args[1], e)
+
+
+class Ravel(OpqArr):
+    """a.ravel() of a rank-2 array-like (row-major): [s] -> a[s div n2, s mod n2]."""
+
+    def __init__(self, it, a, node):
+        OpqArr.__init__(self, "ravel", 1)
+        self.a = a
+        self.n1, self.n2 = tov(it.shape_of(a, 0)), tov(it.shape_of(a, 1))
+        self.length = self.n1 * self.n2
+
+    def sub(self, it, spec, node):
+        if len(spec) == 1 and spec[0][0] == "fix":
+            s = tov(spec[0][1])
+            i = simplify_index(opaque_atom("DIV", [s, self.n2]))
+            j = simplify_index(opaque_atom("MOD", [s, self.n2]))
+            return it.index(self.a, [i, j], node)
+        return View(self, list(spec))
 
 
 class Gather(OpqArr):
